@@ -36,4 +36,14 @@ def main() -> int:
 
 
 if __name__ == "__main__":
-    sys.exit(main())
+    try:
+        code = main()
+    except SystemExit:
+        raise
+    except BaseException:  # noqa: BLE001 - anything that escapes (an import error in a check, a typo) is a harness error, never a verdict
+        import traceback
+
+        traceback.print_exc()
+        print("HARNESS-ERROR: the driver itself failed")
+        code = 2
+    sys.exit(code)
